@@ -68,6 +68,7 @@ Contract(FM, 'WARCRecord.compute_checksum', dict(S, payload_offset=TOpt(TInt()))
     ensures=[('content-length', 'implies(%s is not None, self.fields.map[norm("Content-Length")] == str_of_int(len(%s.content)))' % (BF, BF)),
              ('block-digest', 'implies(%s is not None, self.fields.map[norm("WARC-Block-Digest")] == "sha1:" + b32(sha1(%s.content)).decode())' % (BF, BF)),
              ('payload-digest', 'implies(%s is not None and payload_offset is not None, self.fields.map[norm("WARC-Payload-Digest")] == "sha1:" + b32(sha1(%s.content[payload_offset:])).decode())' % (BF, BF)),
+             ('payload-digest-present', 'implies(%s is not None and payload_offset is not None, norm("WARC-Payload-Digest") in self.fields.map)' % BF),
              ('position-restored', 'implies(%s is not None, %s.pos == 0)' % (BF, BF)),
              ('empty', 'implies(%s is None, self.fields.map[norm("Content-Length")] == "0")' % BF),
              ('other-fields-kept', 'forall_str(lambda k: implies(k in old(self.fields.map), k in self.fields.map))')],
@@ -120,6 +121,7 @@ Contract(RC, 'WARCRecorder.write_record', dict(RS, record=TObj('WARCRecord')), p
     ensures=[('earlier-records-intact', 'startswith(content(%s), old(content(%s)))' % (W, W), {'C06'}),
              ('no-journal', 'not fs_has(%s)' % J, {'C06'}),
              ('warcinfo-id', 'record.fields.map[norm("WARC-Warcinfo-ID")] == self._warcinfo_record.fields.map[norm("WARC-Record-ID")]', {'C05'}),
+             ('only-the-warcinfo-id-is-stamped', 'forall_str(lambda k: implies(k != norm("WARC-Warcinfo-ID") and k in old(record.fields.map), k in record.fields.map and record.fields.map[k] == old(record.fields.map)[k]))', {'C05'}),
              ('cdx-range', 'implies(truthy(self._cdx_filename), self.g_cdx_calls == old(self.g_cdx_calls) + 1 and self.g_cdx_record == record and '
                            'self.g_cdx_offset == len(old(content({w}))) and self.g_cdx_size == len(content({w})) - len(old(content({w}))))'.format(w=W), {'C07'}),
              ('cdx-names-the-file-appended-to', 'implies(truthy(self._cdx_filename), self.g_cdx_filename == old(self._warc_filename))', {'C07'}),
@@ -198,14 +200,17 @@ Contract(RC, 'WARCRecorder.set_length_and_maybe_checksums', dict(RS, record=TObj
     modifies=['record.fields.map', 'record.fields.count', '%s.pos' % RBF, 'all_of("Hasher.fed")'],
     ensures=[('length-of-the-whole-block', 'implies(%s is not None, record.fields.map[norm("Content-Length")] == str_of_int(len(%s.content)))' % (RBF, RBF)),
              ('still-at-the-start', 'implies(%s is not None, %s.pos == 0)' % (RBF, RBF), {'C04'}),
+             ('payload-digest-from-the-given-offset', 'implies(truthy(self._params.digests) and %s is not None and payload_offset is not None, norm("WARC-Payload-Digest") in record.fields.map and record.fields.map[norm("WARC-Payload-Digest")] == "sha1:" + b32(sha1(%s.content[payload_offset:])).decode())' % (RBF, RBF), {'C05'}),
              ('other-fields-kept', 'forall_str(lambda k: implies(k in old(record.fields.map), k in record.fields.map))')],
     raises={'OSError': []},
     note='whether digests are on (compute_checksum) or off (set_content_length): the declared length is the whole block and the block file is left at its start, '
          'which is where WARCRecord.__iter__ starts copying the block into the archive')
 Assumed(RC, 'WARCRecorder.write_record', dict(RS, record=TObj('WARCRecord')), name='WARCRecorder.write_record@session', modifies=['record.fields.map', 'record.fields.count', 'self.g_written'],
     requires=[('the-block-is-written-from-its-first-byte', 'implies(%s is not None, %s.pos == 0)' % (RBF, RBF))],
-    ensures=['self.g_written == old(self.g_written) + 1'], raises={'OSError': []},
-    note='call-site view for the recorder sessions; the body is verified under C05/C06/C07 (WARCRecord.__iter__ copies content[pos:]: a block file that is not at its start '
+    ensures=['self.g_written == old(self.g_written) + 1',
+             'forall_str(lambda k: implies(k != norm("WARC-Warcinfo-ID") and k in old(record.fields.map), k in record.fields.map and record.fields.map[k] == old(record.fields.map)[k]))'],
+    raises={'OSError': []},
+    note='call-site view for the recorder sessions; the field frame is write_record/ensures:only-the-warcinfo-id-is-stamped, proved on the body under C05; the body is verified under C05/C06/C07 (WARCRecord.__iter__ copies content[pos:]: a block file that is not at its start '
          'gives a record whose block is a suffix of -- or nothing of -- what was sent)')
 declare_class('WARCRecorder', {'g_written': TInt()})
 _SESSION_NAMES = {'WARCRecorder.write_record': 'WARCRecorder.write_record@session'}
@@ -247,7 +252,9 @@ Contract(RC, 'HTTPWARCRecorderSession.end_response', dict(HS, response=TObj('HTT
               'implies(self._response_payload_offset is not None, self._response_payload_offset >= 0)', 'norm("WARC-Target-URI") in %s.fields.map' % RR],
     modifies=['%s.block_file.content' % RR, '%s.block_file.pos' % RR, '%s.fields.map' % RR, '%s.fields.count' % RR, 'self._recorder.g_written', 'all_of("Hasher.fed")'],
     ensures=[('one-response-record', 'self._recorder.g_written == old(self._recorder.g_written) + 1'),
-             ('block-untouched-unless-revisit', 'implies(self._url_table is None, %s.block_file.content == old(%s.block_file.content))' % (RR, RR))],
+             ('block-untouched-unless-revisit', 'implies(self._url_table is None, %s.block_file.content == old(%s.block_file.content))' % (RR, RR)),
+             ('payload-digest-starts-at-the-recorded-offset', 'implies(truthy(self._recorder._params.digests) and self._url_table is None and old(self._response_payload_offset) is not None, '
+                  '%s.fields.map[norm("WARC-Payload-Digest")] == "sha1:" + b32(sha1(old(%s.block_file.content)[old(self._response_payload_offset):])).decode())' % (RR, RR), {'C05'})],
     raises={'OSError': []})
 # ---- C05: the payload offset of a response record is the end of the header block as received (position of the temp file when the response is announced) -------
 Assumed('wpull/warc/format.py', 'WARCRecord.__init__', {'self': TObj('WARCRecord')}, modifies=['self.fields', 'self.block_file'], ensures=['self.block_file is None'], raises={},
